@@ -8,7 +8,7 @@ use ntex_util::services::inflight::InFlightService;
 use ntex_util::{HashMap, HashSet, future::join};
 
 use crate::error::{
-    DecodeError, DispatcherError, MqttError, PayloadError, ProtocolError, SpecViolation,
+    DispatcherError, MqttError, PayloadError, ProtocolError, SpecViolation,
 };
 use crate::payload::{Payload, PayloadStatus};
 use crate::{MqttServiceConfig, types::QoS};
@@ -320,7 +320,9 @@ where
                     }
                     Ok(None)
                 } else {
-                    Err(ProtocolError::Decode(DecodeError::UnexpectedPayload).into())
+                    // publish was refused or its handler is gone, rest of its payload is dropped
+                    log::trace!("Payload chunk for inactive publish is dropped");
+                    Ok(None)
                 }
             }
             Decoded::Packet(Packet::PublishAck(packet), _) => {
